@@ -20,6 +20,9 @@ def show_items(items, ctr, indent="  "):
             out.append(f"{indent}goal s{ctr[0]} = new P{it[1]}(x: {arg});")
         elif it[0] == "cons":
             out.append(f"{indent}x {it[1]} {num_text(it[2])};")
+        elif it[0] == "ifact":
+            ctr[0] += 1
+            out.append(f"{indent}fact q{ctr[0]} = new Iv();")
         else:
             out.append(indent + " or ".join("{\n" + "\n".join(show_items(b, ctr, indent + "  ") or [indent + "  x == x;"]) + "\n" + indent + "}" for b in it[1]))
     return out
@@ -55,13 +58,19 @@ def program(rng):
                 items.append(("or", [[("sub", rng.randint(i + 1, k - 1), F(1))], [("cons", ">=", F(rng.randint(0, 3)))]]))
         elif rng.random() < 0.3:
             items.append(("cons", ">=", F(rng.randint(-6, -2))))
+        if rng.random() < 0.25:
+            # a fact of a temporal predicate stated inside the rule, followed by a constraint of the rule: the constraint
+            # belongs to the rule (it must hold whenever the goal is active), whatever happens to that fact
+            items = [("ifact",)] + items + [("cons", rng.choice(["<=", ">="]), F(rng.randint(0, 4)))]
         rules[i] = items
-    lines = []
+    lines = ["predicate Iv() : Interval { }"]
     ctr = [0]
     for i in range(k):
         body = show_items(rules[i], ctr)
         lines.append(f"predicate P{i}(real x) {{" + ("\n" + "\n".join(body) + "\n" if body else " ") + "}")
     facts, goals = [], []
+    if rng.random() < 0.6:
+        lines.append("fact t0 = new Iv();")      # something the facts stated inside rules can unify with
     nf, ng = rng.randint(0, 4), rng.randint(1, 3)
     for n in range(nf):
         p, v = rng.randint(0, k - 1), F(rng.randint(0, 4))
@@ -84,6 +93,8 @@ def expected(items, x):
     empty set: the body cannot hold at x"""
     poss = {()}
     for it in items:
+        if it[0] == "ifact":
+            continue
         if it[0] == "sub":
             poss = {tuple(sorted(p + ((it[1], x + it[2]),))) for p in poss}
         elif it[0] == "cons":
